@@ -176,24 +176,36 @@ WorkerStopFlusher(s) ==
   /\ wk' = [wk EXCEPT ![s].st = "joined"]
   /\ UNCHANGED <<inq, live, nclone, queue, flag, buf, chan, wire, printed, intrSeen>>
 
-\* drain whatever was printed since the flusher's last pass: stdout then stderr
-WorkerFinalDrain(s) ==
+\* drain whatever was printed since the flusher's last pass: stdout then stderr.  Every message is its own
+\* send on the shared response channel, so the messages of another session can come in between.
+WorkerFinalDrainOut(s) ==
   /\ wk[s].st = "joined"
   /\ chan' = chan \o (IF buf[s].out # "" THEN <<Msg(wk[s].id, s, "out", buf[s].out, {})>> ELSE <<>>)
-                  \o (IF buf[s].err # "" THEN <<Msg(wk[s].id, s, "err", buf[s].err, {})>> ELSE <<>>)
-  /\ buf' = [buf EXCEPT ![s] = [out |-> "", err |-> ""]]
+  /\ buf' = [buf EXCEPT ![s].out = ""]
+  /\ wk' = [wk EXCEPT ![s].st = "drainedout"]
+  /\ UNCHANGED <<inq, live, nclone, queue, flag, flusher, wire, printed, intrSeen>>
+WorkerFinalDrainErr(s) ==
+  /\ wk[s].st = "drainedout"
+  /\ chan' = chan \o (IF buf[s].err # "" THEN <<Msg(wk[s].id, s, "err", buf[s].err, {})>> ELSE <<>>)
+  /\ buf' = [buf EXCEPT ![s].err = ""]
   /\ wk' = [wk EXCEPT ![s].st = "drained"]
   /\ UNCHANGED <<inq, live, nclone, queue, flag, flusher, wire, printed, intrSeen>>
 
-\* value / error text, then the final done
-WorkerReply(s) ==
+\* value / error text ...
+WorkerReplyText(s) ==
   /\ wk[s].st = "drained"
   /\ LET id == wk[s].id  oc == wk[s].outcome IN
      chan' = chan \o (IF oc = "value" THEN <<Msg(id, s, "value", "", {})>>
                       ELSE IF oc = "info" THEN <<>> ELSE <<Msg(id, s, "err", ERRTEXT, {})>>)
-                  \o <<Done(id, s, CASE oc \in {"value", "info"} -> {"done"}
-                                     [] oc = "interrupted" -> {"done", "interrupted"}
-                                     [] OTHER -> {"done", "eval-error"})>>
+  /\ wk' = [wk EXCEPT ![s].st = "replied"]
+  /\ UNCHANGED <<inq, live, nclone, queue, flag, buf, flusher, wire, printed, intrSeen>>
+\* ... then the final done
+WorkerReplyDone(s) ==
+  /\ wk[s].st = "replied"
+  /\ LET id == wk[s].id  oc == wk[s].outcome IN
+     chan' = Append(chan, Done(id, s, CASE oc \in {"value", "info"} -> {"done"}
+                                       [] oc = "interrupted" -> {"done", "interrupted"}
+                                       [] OTHER -> {"done", "eval-error"}))
   /\ wk' = [wk EXCEPT ![s] = IdleW]
   /\ UNCHANGED <<inq, live, nclone, queue, flag, buf, flusher, wire, printed, intrSeen>>
 
@@ -207,7 +219,8 @@ Writer ==
 ServerStep ==
   \/ Reader \/ Writer
   \/ \E s \in Sessions : \/ WorkerDequeue(s) \/ WorkerResetFlag(s) \/ WorkerStep(s) \/ FlushOut(s) \/ FlushErr(s)
-                         \/ WorkerStopFlusher(s) \/ WorkerFinalDrain(s) \/ WorkerReply(s)
+                         \/ WorkerStopFlusher(s) \/ WorkerFinalDrainOut(s) \/ WorkerFinalDrainErr(s)
+                         \/ WorkerReplyText(s) \/ WorkerReplyDone(s)
 
 (* ------------------------------------------------------------- properties *)
 IsDone(m) == "done" \in m.status
